@@ -9,6 +9,7 @@ import m_addr
 import m_endian
 import m_streams
 import m_regions
+import m_conc
 
 
 def c09(ctx):
@@ -36,6 +37,7 @@ PROPS = {
     "C17": m_volatile.run,
     "C18": both,
     "C07": c07,
+    "C08": m_conc.run,
     "C09": c09,
     "C10": m_regions.run,
     "C13": m_streams.run,
